@@ -12,7 +12,7 @@ def register(PROPS, HARNESS_PKGS):
         "quick": {"gen": [sim('{"e1", "e2"}', 250, 9), sim('{"e1", "e2", "e3"}', 150, 11)]},
         "thorough": {"gen": [sim('{"e1", "e2"}', 2500, 12), sim('{"e1", "e2", "e3"}', 2500, 16)]},
         "pkg": "internal/app", "test": "TestVerif_Olla",
-        "harness_files": ["stack_test.go", "olla_test.go"],
+        "harness_files": ["stack_test.go", "dispatch_test.go", "headers_test.go", "olla_test.go"],
         "trace": {"module": "OllaTrace", "cfg": "Olla_trace.cfg", "deque": True},
         "nontrivial": lambda s: sum(1 for x in s if x.get("op") == "req") >= 2 and any(x.get("op") in ("up", "relist") for x in s),
     }
